@@ -1,10 +1,13 @@
 (* C01 — every operation preserves the invariant; the main theorems. *)
 From Coq Require Import List ZArith Bool Lia.
-From Verif Require Import Lib.Vec2 C01.Model C01.Spec C01.Proofs_Base C01.Proofs_Walk C01.Proofs_Delta
+From Verif Require Import Lib.VecN C01.Model C01.Spec C01.Proofs_Base C01.Proofs_Walk C01.Proofs_Delta
   C01.Proofs_Unique C01.Proofs_PodList C01.Proofs_Sections C01.Proofs_Pods C01.Proofs_Shape C01.Proofs_CWalk
   C01.Proofs_Detach C01.Proofs_SetMaxMin C01.Proofs_Mid C01.Proofs_Reset C01.Proofs_Quota C01.Proofs_Reparent.
 Import ListNotations.
 Open Scope Z_scope.
+
+Section WithDim.
+Context {D : Dim}.
 
 Definition Inv2 (s : state) : Prop := Inv s /\ SpecOk (st_sh s).
 
@@ -31,18 +34,28 @@ Proof.
   destruct (viszero (vsub (oreq n) (oreq o)) && viszero (vsub (onp n) (onp o))); reflexivity.
 Qed.
 
+End WithDim.
+
 Ltac sh_simpl :=
   repeat (rewrite ?sh_pod_used_sec, ?sh_pod_req_sec, ?sh_cache_del, ?sh_cache_add, ?sh_set_asg;
           try match goal with |- context [if ?c then _ else _] => destruct c end);
   try reflexivity.
+
+Section WithDimB.
+Context {D : Dim}.
 
 Lemma sh_add_new_pod s q p : st_sh (add_new_pod s q p) = st_sh s.
 Proof. unfold add_new_pod. sh_simpl. Qed.
 Lemma sh_remove_pod_req_first s q p : st_sh (remove_pod_req_first s q p) = st_sh s.
 Proof. unfold remove_pod_req_first. sh_simpl. Qed.
 
+End WithDimB.
+
 Ltac shr := repeat first [rewrite sh_add_new_pod | rewrite sh_remove_pod_req_first | rewrite sh_pod_used_sec
                           | rewrite sh_pod_req_sec | rewrite sh_cache_del | rewrite sh_cache_add | rewrite sh_set_asg].
+
+Section WithDimC.
+Context {D : Dim}.
 
 Lemma sh_pod_ops s o :
   match o with OpQuotaUpdate _ | OpQuotaDelete _ | OpReset => True | _ => st_sh (step s o) = st_sh s end.
@@ -178,7 +191,7 @@ Proof.
       assert (Hz : forall g, sumc (st_sh (init sm dm)) g (q_name q) = vzero).
       { intros g. apply sumc_no_children. intros c Hc E.
         destruct Hc as [<-|[<-|[]]]; cbn in E; destruct Hq as [<-|[<-|[]]]; cbn in E; discriminate. }
-      constructor; unfold okA, okN, okB, okU, okUN, okS; rewrite ?Hz; cbn [init st_r st_u st_p]; cbn; auto.
+      constructor; unfold okA, okN, okB, okU, okUN, okS; rewrite ?Hz; cbn [init st_r st_u st_p]; cbn; rewrite ?vadd_0_l; auto using nonneg_r0, nonneg_u0.
       destruct Hq as [<-|[<-|[]]]; reflexivity.
     + intros q Hq. reflexivity.
   - intros q [<-|[<-|[]]] _; reflexivity.
@@ -278,3 +291,5 @@ Theorem figures_nonneg sm dm h :
 Proof.
   intros Hi Hh q Hq. destruct (inv_q _ (proj1 (run_inv h _ (init_inv sm dm Hi) Hh)) q Hq). auto.
 Qed.
+
+End WithDimC.
